@@ -432,6 +432,9 @@ func (m *M) check(b, route string, a Args, pre *snapshot, r *world.Result) {
 			m.violate("C14", "state-kept", "the OAuth2 state survived a callback that matched it", b)
 		}
 		if d, ok := m.W.OAuth[a.OCode]; ok && newU != "" && newU != oldU && !mwAuth {
+			if want := "oauth2;;" + a.Prov + ";;" + d["uid"]; newU != want {
+				m.violate("C14", "identity-mismatch", fmt.Sprintf("the provider reported (%s, %q) but the session identifies %q", a.Prov, d["uid"], newU), b)
+			}
 			pair := a.Prov + "\x00" + d["uid"]
 			if m.pidOwner == nil {
 				m.pidOwner = map[string]string{}
